@@ -40,11 +40,12 @@ theorem rpow_as_two (X y : ℝ) (hX : 0 < X) : X ^ y = (2:ℝ) ^ (Real.logb 2 X 
   unfold Real.logb
   field_simp
 
-/-- real-arithmetic core of the `powf` analysis -/
-theorem powf_core (lh L y z r v : ℝ) (hl : |lh - L| ≤ 114 / 10 ^ 7 + (1 / 16777216) * |L|)
+/-- real-arithmetic core of the `powf` analysis, for any relative accuracy `η` of the final `exp2` -/
+theorem powf_core_gen (lh L y z r v η : ℝ) (hl : |lh - L| ≤ 114 / 10 ^ 7 + (1 / 16777216) * |L|)
     (hz : |z - lh * y| ≤ (1 / 16777216) * |lh * y| + 1 / 10 ^ 40) (hy : |y| ≤ 80) (hLy : |L * y| ≤ 117)
-    (hv : v = (2:ℝ) ^ (L * y)) (hr : |r - (2:ℝ) ^ z| ≤ (1734 / 10 ^ 7) * (2:ℝ) ^ z) :
-    |z - L * y| ≤ 1 / 1000 ∧ |r - v| ≤ (1832 / 10 ^ 7 + (7914 / 10 ^ 9) * |y|) * v := by
+    (hv : v = (2:ℝ) ^ (L * y)) (hη : 0 ≤ η) (hr : |r - (2:ℝ) ^ z| ≤ η * (2:ℝ) ^ z) :
+    |z - L * y| ≤ (114 / 10 ^ 7) * |y| + 141 / 10 ^ 7 ∧
+    |r - v| ≤ ((694 / 1000) * ((114 / 10 ^ 7) * |y| + 141 / 10 ^ 7) + η * (1 + (694 / 1000) * ((114 / 10 ^ 7) * |y| + 141 / 10 ^ 7))) * v := by
   have hy0 := abs_nonneg y
   have h1 : |lh * y - L * y| ≤ (114 / 10 ^ 7) * |y| + (1 / 16777216) * |L * y| := by
     have e : lh * y - L * y = (lh - L) * y := by ring
@@ -60,7 +61,7 @@ theorem powf_core (lh L y z r v : ℝ) (hl : |lh - L| ≤ 114 / 10 ^ 7 + (1 / 16
     refine le_trans (abs_add_le _ _) ?_
     nlinarith
   have hΔ1 : |z - L * y| ≤ 1 / 1000 := by nlinarith
-  refine ⟨hΔ1, ?_⟩
+  refine ⟨hΔ, ?_⟩
   have hpos : 0 < v := by rw [hv]; exact Real.rpow_pos_of_pos (by norm_num) _
   have hp := two_pow_pert_sharp (L * y) (z - L * y) hΔ1
   have e : L * y + (z - L * y) = z := by ring
@@ -71,9 +72,18 @@ theorem powf_core (lh L y z r v : ℝ) (hl : |lh - L| ≤ 114 / 10 ^ 7 + (1 / 16
     refine le_trans hp ?_
     apply mul_le_mul_of_nonneg_right _ hpos.le
     nlinarith
-  have hrel := Exp2.rel_trans v w r ((694 / 1000) * ((114 / 10 ^ 7) * |y| + 141 / 10 ^ 7)) (1734 / 10 ^ 7) hpos.le
-    (by positivity) (by norm_num) hwv (by rw [abs_of_pos hwpos]; exact hr)
-  refine le_trans hrel ?_
+  exact Exp2.rel_trans v w r ((694 / 1000) * ((114 / 10 ^ 7) * |y| + 141 / 10 ^ 7)) η hpos.le
+    (by positivity) hη hwv (by rw [abs_of_pos hwpos]; exact hr)
+
+/-- real-arithmetic core of the `powf` analysis -/
+theorem powf_core (lh L y z r v : ℝ) (hl : |lh - L| ≤ 114 / 10 ^ 7 + (1 / 16777216) * |L|)
+    (hz : |z - lh * y| ≤ (1 / 16777216) * |lh * y| + 1 / 10 ^ 40) (hy : |y| ≤ 80) (hLy : |L * y| ≤ 117)
+    (hv : v = (2:ℝ) ^ (L * y)) (hr : |r - (2:ℝ) ^ z| ≤ (1734 / 10 ^ 7) * (2:ℝ) ^ z) :
+    |z - L * y| ≤ 1 / 1000 ∧ |r - v| ≤ (1832 / 10 ^ 7 + (7914 / 10 ^ 9) * |y|) * v := by
+  obtain ⟨h1, h2⟩ := powf_core_gen lh L y z r v (1734 / 10 ^ 7) hl hz hy hLy hv (by norm_num) hr
+  have hy0 := abs_nonneg y
+  have hpos : 0 < v := by rw [hv]; exact Real.rpow_pos_of_pos (by norm_num) _
+  refine ⟨by nlinarith, le_trans h2 ?_⟩
   apply mul_le_mul_of_nonneg_right _ hpos.le
   nlinarith
 
